@@ -366,6 +366,7 @@ func TestExhaustive2(t *testing.T) {
 			total += evals
 			schemas++
 			if err != nil {
+				ev.G().PinLast()
 				t.Fatalf("C02 violated: %v", err)
 			}
 		}
@@ -411,6 +412,7 @@ func TestExhaustive3(t *testing.T) {
 					collect(err)
 					continue
 				}
+				ev.G().PinLast()
 				t.Fatalf("C02 violated: %v", err)
 			}
 		}
@@ -494,6 +496,7 @@ func TestSampled(t *testing.T) {
 		c.Accept = rapid.IntRange(0, 3).Draw(t, "accepting") == 0
 		st.Journal(map[string]any{"kind": "sampled", "case": c})
 		if err := sampledCase(st, c); err != nil {
+			ev.G().PinLast()
 			t.Fatalf("C02 violated: %v", err)
 		}
 	})
@@ -522,6 +525,7 @@ func TestReplay(t *testing.T) {
 			t.Fatal(err)
 		}
 		if err := sampledCase(nil, c); err != nil {
+			ev.G().PinLast()
 			t.Fatalf("C02 violated: %v", err)
 		}
 	case "eval":
@@ -536,6 +540,7 @@ func TestReplay(t *testing.T) {
 			t.Fatal(err)
 		}
 		if err := checkTxs(nil, ec, parsed, names, start, txs, after); err != nil {
+			ev.G().PinLast()
 			t.Fatalf("C02 violated: %v", err)
 		}
 	default:
@@ -589,6 +594,7 @@ func TestKnownAndRegressions(t *testing.T) {
 		}
 		st.Eval(1)
 		if err := checkTxs(st, ec, parsed, names, start, txs, after); err != nil {
+			ev.G().PinLast()
 			t.Fatalf("C02 violated (regression case %d): %v", i, err)
 		}
 	}
